@@ -529,11 +529,15 @@ func (k *Checker) checkSnapshotStep(n *Node, pre, post *raft.VerifState, ctx *ca
 			k.c.stats.probe("snapshot_replaced_divergent_tail")
 		}
 	default:
-		// not installed and not matching: legal only for non-members or non-followers
-		if member && post.State == raft.StateFollower && post.Committed < idx {
-			k.report("C09", "sn.install", n, fmt.Sprintf("snapshot (%d,%d) beyond commit %d was neither installed nor matched", idx, term, pre.Committed), "sn.dropped")
+		// Not installed and not matching. The statement does not oblige a node to
+		// accept a snapshot (raft refuses e.g. for non-members, non-followers and
+		// while configuration changes are pending application); it only must
+		// not be damaged by it: nothing may have changed.
+		if post.Committed != pre.Committed || post.LastIndex != pre.LastIndex || post.FirstIndex != pre.FirstIndex {
+			k.report("C09", "sn.install", n, fmt.Sprintf("refused snapshot (%d,%d) changed the node: commit %d->%d log [%d,%d]->[%d,%d]", idx, term, pre.Committed, post.Committed, pre.FirstIndex, pre.LastIndex, post.FirstIndex, post.LastIndex), "sn.refused_changed")
 			return
 		}
+		k.c.stats.probe("snapshot_refused")
 		if !member {
 			k.c.stats.probe("snapshot_not_in_config")
 		}
